@@ -1,4 +1,6 @@
 """C18 - biomolecule sequences are the sum of their residues."""
+from contracts import fasta as FA
+
 ID = "C18"
 LEVEL = "other"
 TRUSTED = ["A7 residue literals and ambiguity sets read from fasta.py's source by ast/tokenize (runner/c18.py)"]
@@ -6,7 +8,7 @@ EXPLANATION = "see DESIGN.md C18"
 
 
 def units(tier):
-    return []
+    return FA.U_GUESS_TYPE + FA.U_READ_FASTA + FA.U_CODE_AVERAGE
 
 
 def runner_tasks(tier):
